@@ -12,10 +12,12 @@
 (* against the Meaning of the query it was made from.                       *)
 EXTENDS SortInfer
 
-CONSTANTS MaxCtes, MaxSteps
+CONSTANTS MaxCtes, MaxSteps,
+          AllowF42   \* TRUE: also main relations in which a take carries a sort whose stand-alone Sort the flattener dropped
+                     \* (known finding F42: the empty Sort pushed at the end of the main relation hides the take's sort)
 
-VARIABLES phase, ctes, cur, vis, usort, nstep, nriid, R0, insts, verdict, ph
-vars == <<phase, ctes, cur, vis, usort, nstep, nriid, R0, insts, verdict, ph>>
+VARIABLES phase, ctes, cur, vis, usort, nstep, nriid, R0, insts, verdict, ph, hid, hidTake
+vars == <<phase, ctes, cur, vis, usort, nstep, nriid, R0, insts, verdict, ph, hid, hidTake>>
 
 \* columns of instance x: of a table (two columns), of a CTE (one per selected column)
 ColsOf(x, n) == [i \in 1 .. n |-> x * 10 + i]
@@ -28,7 +30,7 @@ Reads(x, src) == IF src = -1 THEN insts
                  ELSE [t \in DOMAIN insts \cup {src} |-> (IF t \in DOMAIN insts THEN insts[t] ELSE {}) \cup (IF t = src THEN {x} ELSE {})]
 
 Init == /\ phase = "start" /\ ctes = <<>> /\ cur = <<>> /\ vis = <<>> /\ usort = <<>> /\ nstep = 0 /\ nriid = 1
-        /\ R0 = {} /\ insts = EmptyFn /\ verdict = "none" /\ ph = 1
+        /\ R0 = {} /\ insts = EmptyFn /\ verdict = "none" /\ ph = 1 /\ hid = FALSE /\ hidTake = FALSE
 
 Start == /\ phase = "start"
          /\ \E src \in Sources :
@@ -36,7 +38,7 @@ Start == /\ phase = "start"
               /\ vis' = ColsOf(nriid, NCols(src))
               /\ R0' = R0 \cup AnchorR(nriid, src)
               /\ insts' = Reads(nriid, src)
-         /\ usort' = <<>> /\ nriid' = nriid + 1 /\ phase' = "grow" /\ ph' = 1
+         /\ usort' = <<>> /\ nriid' = nriid + 1 /\ phase' = "grow" /\ ph' = 1 /\ hid' = FALSE /\ hidTake' = FALSE
          /\ UNCHANGED <<ctes, nstep, verdict>>
 
 \* an atomic pipeline is one SELECT: its transforms come in SQL's clause order (the anchor cuts elsewhere: Backend.tla,
@@ -45,44 +47,53 @@ Start == /\ phase = "start"
 CanGrow == phase = "grow" /\ nstep < MaxSteps /\ vis # <<>>
 Step(t) == cur' = Append(cur, t) /\ nstep' = nstep + 1
 Keep == UNCHANGED <<phase, ctes, nriid, R0, insts, verdict>>
+KeepT == UNCHANGED hidTake
+KeepH == UNCHANGED hid
 AddSort == /\ CanGrow /\ ph < 7
            /\ \E k \in { <<Key(vis[1], FALSE)>>, <<Key(vis[1], TRUE)>>, <<Key(vis[Len(vis)], FALSE)>> } :
-                Step([P("Sort") EXCEPT !.keys = k]) /\ usort' = k
-           /\ UNCHANGED <<vis, ph>> /\ Keep
+                /\ usort' = k
+                \* (or the flattener dropped the stand-alone Sort: only the takes that follow carry it)
+                \* (the flattener drops all the stand-alone Sorts in front of a group or none: after a Sort that was kept no
+                \* dropped one follows in this SELECT, and the other way round)
+                /\ \/ ~hid /\ Step([P("Sort") EXCEPT !.keys = k]) /\ hid' = FALSE
+                   \/ usort # k /\ ~(\E i \in 1 .. Len(cur) : cur[i].k = "Sort") /\ UNCHANGED <<cur, nstep>> /\ hid' = TRUE
+           /\ UNCHANGED <<vis, ph>> /\ Keep /\ KeepT
 \* a chain of takes in one SELECT counts in one order
 AddTake == /\ CanGrow /\ ph <= 9
-           /\ \E emb \in {<<>>, usort} : Step([P("Take") EXCEPT !.keys = emb])
-           /\ ph' = 9 /\ UNCHANGED <<vis, usort>> /\ Keep
+           \* (a sort that lives only in the takes is in every take that follows it)
+           /\ \E emb \in (IF hid THEN {usort} ELSE {<<>>, usort}) : Step([P("Take") EXCEPT !.keys = emb])
+           /\ hidTake' = (hidTake \/ hid)
+           /\ ph' = 9 /\ UNCHANGED <<vis, usort>> /\ Keep /\ KeepH
 AddAggregate == /\ CanGrow /\ ph < 4 /\ Step([P("Aggregate") EXCEPT !.part = <<vis[1]>>])
-                /\ vis' = <<vis[1], 900 + nstep>> /\ usort' = <<>> /\ ph' = 4 /\ Keep
-AddDistinct == CanGrow /\ ph < 7 /\ Step(P("Distinct")) /\ usort' = <<>> /\ ph' = 7 /\ UNCHANGED vis /\ Keep
+                /\ vis' = <<vis[1], 900 + nstep>> /\ usort' = <<>> /\ ph' = 4 /\ Keep /\ hid' = FALSE /\ KeepT
+AddDistinct == CanGrow /\ ph < 7 /\ Step(P("Distinct")) /\ usort' = <<>> /\ ph' = 7 /\ UNCHANGED vis /\ Keep /\ hid' = FALSE /\ KeepT
 AddDistinctOn == /\ CanGrow /\ ph < 7 /\ nstep + 2 <= MaxSteps
                  /\ \E inner \in {<<>>, <<Key(vis[Len(vis)], TRUE)>>} :
                       /\ cur' = cur \o << [P("Sort") EXCEPT !.keys = inner], [P("DistinctOn") EXCEPT !.part = <<vis[1]>>] >>
                       /\ nstep' = nstep + 2
                  \* nothing of this SELECT may follow a DISTINCT ON
-                 /\ usort' = <<>> /\ ph' = 11 /\ UNCHANGED vis /\ Keep
+                 /\ usort' = <<>> /\ ph' = 11 /\ UNCHANGED vis /\ Keep /\ hid' = FALSE /\ KeepT
 AddJoin == /\ CanGrow /\ ph <= 2
            /\ \E src \in Sources, side \in {"Inner", "Left", "Right"} :
                 /\ Step([P("Join") EXCEPT !.src = src, !.riid = nriid, !.side = side])
                 /\ vis' = vis \o ColsOf(nriid, NCols(src))
                 /\ R0' = R0 \cup AnchorR(nriid, src)
                 /\ insts' = Reads(nriid, src)
-           /\ nriid' = nriid + 1 /\ ph' = 2 /\ UNCHANGED <<phase, ctes, usort, verdict>>
-AddFilter == CanGrow /\ ph <= 5 /\ Step(P("Other")) /\ ph' = (IF ph < 4 THEN 3 ELSE 5) /\ UNCHANGED <<vis, usort>> /\ Keep
-AddUnion == CanGrow /\ ph < 10 /\ Step(P("Union")) /\ usort' = <<>> /\ ph' = 11 /\ UNCHANGED vis /\ Keep
+           /\ nriid' = nriid + 1 /\ ph' = 2 /\ UNCHANGED <<phase, ctes, usort, verdict, hid, hidTake>>
+AddFilter == CanGrow /\ ph <= 5 /\ Step(P("Other")) /\ ph' = (IF ph < 4 THEN 3 ELSE 5) /\ UNCHANGED <<vis, usort>> /\ Keep /\ KeepH /\ KeepT
+AddUnion == CanGrow /\ ph < 10 /\ Step(P("Union")) /\ usort' = <<>> /\ ph' = 11 /\ UNCHANGED vis /\ Keep /\ hid' = FALSE /\ KeepT
 
 Closed(sel) == << [P("Select") EXCEPT !.cols = sel] >> \o cur
 CloseCte == /\ phase = "grow" /\ Len(ctes) < MaxCtes /\ vis # <<>>
             /\ \E sel \in {vis, <<vis[1]>>} :
                  ctes' = Append(ctes, [tid |-> 100 + Len(ctes), pipes |-> << Closed(sel) >>])
             /\ phase' = "start" /\ cur' = <<>> /\ vis' = <<>> /\ usort' = <<>>
-            /\ UNCHANGED <<nstep, nriid, R0, insts, verdict, ph>>
+            /\ UNCHANGED <<nstep, nriid, R0, insts, verdict, ph, hid, hidTake>>
 
 \* the columns that are columns of relation instances
 DeclsOf(R) == { [cid |-> x * 10 + i, riid |-> x] : x \in 1 .. nriid, i \in 1 .. 2 } \cup { [cid |-> r.tgt, riid |-> r.riid] : r \in R }
 CloseMain ==
-  /\ phase = "grow" /\ vis # <<>>
+  /\ phase = "grow" /\ vis # <<>> /\ (AllowF42 \/ ~hidTake)
   /\ \E sel \in {vis, <<vis[1]>>} :
        LET q == [ctes |-> ctes, main |-> Closed(sel)]
            picks == [t \in DOMAIN insts |-> insts[t]]
@@ -91,7 +102,7 @@ CloseMain ==
             /\ LET a == InferQueryX(q, R0, insts, pick)
                IN verdict' = QueryVerdict(q, [ctes |-> a.ctes, main |-> a.main], a.R, {}, DeclsOf(a.R))
   /\ phase' = "done"
-  /\ UNCHANGED <<ctes, cur, vis, usort, nstep, nriid, R0, insts, ph>>
+  /\ UNCHANGED <<ctes, cur, vis, usort, nstep, nriid, R0, insts, ph, hid, hidTake>>
 Done == phase = "done" /\ UNCHANGED vars
 
 Next == Start \/ AddSort \/ AddTake \/ AddAggregate \/ AddDistinct \/ AddDistinctOn \/ AddJoin \/ AddFilter \/ AddUnion
